@@ -36,6 +36,7 @@ fn main() {
                 "SESS" => file::run_sess(&toks[1..]),
                 "OPEN" => file::run_open(&toks[1..]),
                 "BLOBRD" => file::run_blobrd(&toks[1..]),
+                "BLOBRDS" => file::run_blobrds(&toks[1..]),
                 "VCRC" => file::run_vcrc(&toks[1..]),
                 "RAWXML" => file::run_rawxml(&toks[1..]),
                 "BITS" => bits::run_bits(&toks[1..]),
